@@ -249,12 +249,22 @@ template <class F, class T> static void run_program (int prog, const std::vector
         else if (st.op == "sub") { if (st.sp == 0) acc = acc - rhs; else acc -= rhs; }
         else if (st.op == "mul") { if (!(F::CAPS & CAP_VMUL)) done = false; vmul (acc, rhs, st.sp, std::integral_constant<bool, (F::CAPS & CAP_VMUL) != 0> ()); }
         else if (st.op == "div") { if (!(F::CAPS & CAP_VDIV)) done = false; vdiv (acc, b, st.sp, std::integral_constant<bool, (F::CAPS & CAP_VDIV) != 0> ()); }
-        else if (st.op == "smul")
+        else if (st.op == "smul" || st.op == "sdiv")
         {
             operand = sc;
-            if (st.sp == 0) acc = acc * s; else if (st.sp == 1) acc *= s; else sleft (acc, s, std::integral_constant<bool, (F::CAPS & CAP_SLEFT) != 0> ());
+            // every fourth operand index: the scalar is a REFERENCE to one of the accumulator's own elements (m *= m[1][1]);
+            // the element must be used with the value it had before the operation
+            const T* own = F::ptr (acc);
+            int      slot = (st.k / 4) % F::N;
+            bool     selfs = (st.k % 4 == 2) && own != 0 && own[slot] != T (0) && own[slot] == own[slot];
+            if (selfs) { s = own[slot]; operand = "[" + jl (&s, 1).substr (1); }
+            const T& sr = selfs ? own[slot] : s;
+            if (st.op == "smul")
+            {
+                if (st.sp == 0) acc = acc * sr; else if (st.sp == 1) acc *= sr; else sleft (acc, sr, std::integral_constant<bool, (F::CAPS & CAP_SLEFT) != 0> ());
+            }
+            else { if (st.sp == 0) acc = acc / sr; else acc /= sr; }
         }
-        else if (st.op == "sdiv") { operand = sc; if (st.sp == 0) acc = acc / s; else acc /= s; }
         else if (st.op == "neg") { operand = "[]"; if (st.sp == 0) acc = -acc; else negate_ (acc, std::integral_constant<bool, (F::CAPS & CAP_NEGATE) != 0> ()); }
         else done = false;
         if (!done) continue;
